@@ -656,7 +656,9 @@ func (db *DB) Connection(fc func(tx *DB) error) (err error) {
 
 	defer conn.Close()
 	tx.Statement.ConnPool = conn
-	return fc(tx)
+	// the block gets a reusable handle, as the block of Transaction does: every statement of the block starts
+	// from it, none adds to the next one's conditions, and all of them run on the connection
+	return fc(tx.Session(&Session{NewDB: db.clone == 1}))
 }
 
 // Transaction start a transaction as a block, return error will rollback, otherwise to commit. Transaction executes an
